@@ -237,8 +237,8 @@ def signature(pred, label, done):
     return None
 
 
-PRED = ['count-names', 'dims', 'hierarchical', 'special-dims', 'unique', 'order', 'defaults', 'accepts', 'gradient']
-STRUCT = PRED[:7]
+PRED = ['count-names', 'dims', 'hierarchical', 'special-dims', 'unique', 'order', 'defaults', 'fixed-names', 'accepts', 'gradient']
+STRUCT = PRED[:8]
 
 
 def run_pop_history(real, factory, seq, opmap):
@@ -253,9 +253,16 @@ def run_pop_history(real, factory, seq, opmap):
         op = opmap[nm]
         if not applicable((nm, op), m):
             return None
+        names_before = list(m.get_parameter_names())
         try:
             op(m)
             done.append(nm)
+            if nm in ('fix(first)', 'fix(last)'):
+                # fixing by name removes exactly the named parameter from the published names (the others keep their order)
+                gone = names_before[0] if nm == 'fix(first)' else names_before[-1]
+                want = [x for x in names_before if x != gone]
+                if list(m.get_parameter_names()) != want:
+                    return 'fixed-names', 'fix_parameters({%r: value}) turns the names %s into %s; expected %s' % (gone, names_before, list(m.get_parameter_names()), want), done
             if nm == 'set_dim_names(new)':
                 custom.add('dim')
             if nm == 'set_dim_names(None)':
